@@ -39,7 +39,6 @@ ASSUMPTIONS = [
     'cell\'s own formula with the library\'s stand-alone formula compiler on '
     'harness-built inputs; RefCalc is an independent second opinion on its '
     'vocabulary only',
-    'whole-column / whole-row references are excluded from generation (cost)',
     'sampling, not enumeration',
 ]
 TIERS = {
@@ -69,11 +68,20 @@ def generate(seed, tier):
     if swarm.chance(.3):
         from ..world import add_satellite_block
         add_satellite_block(Rng(seed, 'satblock'), world)
+    heavy = False
+    if swarm.chance(.06):
+        # whole rows (cheap) and, rarely, whole columns (a million cells each:
+        # seconds per model, so two schedules only) - last motif, it records
+        # the window
+        from ..world import add_whole_refs
+        wr = Rng(seed, 'whole')
+        heavy = wr.chance(.03 if tier == 'quick' else .05)
+        add_whole_refs(wr, world, cols=heavy)
     srng = Rng(seed, 'sched')
     scheds = []
     n_items = len(world['cells']) + len(world['names'])
     nb = len(world['books'])
-    for k in range(t['n_sched']):
+    for k in range(2 if heavy else t['n_sched']):
         pr = Rng(seed, 'place/%d' % k)
         pl = identity_placement(world) if k == 0 else \
             gen_placement(pr, world)
@@ -81,6 +89,8 @@ def generate(seed, tier):
         s = {'kind': kind, 'placement': pl,
              'compact': srng.pick([1, 1, 2, 5, 1000]),
              'recalc': srng.pick([1, 1, 2, 3])}
+        if heavy:
+            s['recalc'] = 1
         if kind == 'dict':
             s['order'] = srng.perm(n_items) if k else list(range(n_items))
         else:
